@@ -196,8 +196,8 @@ def run(ctx, R, tier):
 
     c2d = ctx.fn("Pyro5.serializers.SerializerBase.class_to_dict")
     neutral = [st for st, t, k in stores_in(c2d.node) if isinstance(t, ast.Attribute) and t.attr == "_pyroDaemon"]
-    okn = bool(neutral) and all(k_ == "assign" for st, t, k_ in stores_in(c2d.node) if isinstance(t, ast.Attribute) and t.attr == "_pyroDaemon")
-    R.check(okn, "C16-R4", "class_to_dict|daemon-mark-neutralised-by-assignment", "by-value serialisation hides the daemon mark by assigning None (the mark may live on the registered class, where `del` on the instance fails)",
+    okn = all(k_ == "assign" for st, t, k_ in stores_in(c2d.node) if isinstance(t, ast.Attribute) and t.attr == "_pyroDaemon")
+    R.check(okn, "C16-R4", "class_to_dict|daemon-mark-never-deleted", "by-value serialisation never deletes the daemon mark from the instance (the mark may live on the registered class, where `del` on the instance fails)",
             c2d.loc(neutral[0]) if neutral else c2d.loc(),
             "class_to_dict deletes obj._pyroDaemon: for an instance of a class that was registered as a class the attribute lives on the class, the delete raises AttributeError and the object "
             "cannot travel by value after its class was unregistered by id")
@@ -267,3 +267,32 @@ def run(ctx, R, tier):
                    "access reaches the reference instead of the object" % unparse(getattr(read, "_parent", read), 80))
     if n_reads < 5:
         raise AnalysisError("fewer registry value reads than expected (%d)" % n_reads)
+
+    # ---------------------------------------------------------------- R7
+    R.rule("C16-R7", "serialising a value never writes to it: the registration marks (_pyroId, _pyroDaemon) of a registered object survive being sent", floor=8)
+    n7 = 0
+    sermod = [g for g in p.functions.values() if g.module.name == "Pyro5.serializers" or g.qualname == "Pyro5.server._pyro_obj_to_auto_proxy"]
+    for g in sorted(sermod, key=lambda g: g.qualname):
+        nm = g.name
+        if not (nm in ("class_to_dict", "default", "convert_obj_into_marshallable", "dumps", "dumpsCall", "_pyro_obj_to_auto_proxy") or nm.startswith(("serpent_", "custom_"))):
+            continue
+        subjects = set(g.params) - {g.self_name, "cls", "self"}
+        bad = None
+        for st, t, k in stores_in(g.node):
+            base = t
+            while isinstance(base, (ast.Attribute, ast.Subscript)):
+                base = base.value
+            if isinstance(t, (ast.Attribute, ast.Subscript)) and isinstance(base, ast.Name) and base.id in subjects:
+                # a rebinding of the parameter to a fresh object first makes later stores harmless
+                defs = [d for n in ctx.cfg(g).nodes_for(st) for d in ctx.rd(g).reaching(n, base.id)]
+                if any(d.kind == "param" for d in defs):
+                    bad = st
+        for c in walk_no_nested(g.node):
+            if isinstance(c, ast.Call) and isinstance(c.func, ast.Name) and c.func.id in ("setattr", "delattr") and c.args and isinstance(c.args[0], ast.Name) \
+                    and c.args[0].id in subjects:
+                bad = c
+        n7 += 1
+        R.check(bad is None, "C16-R7", "%s|read-only-on-its-argument" % g.qualname.split(".", 2)[2], "no attribute or item of the value being serialised is assigned or deleted", g.loc(),
+                ("`%s` at %s modifies the object that is being serialised: a registered object sent once (by a serializer without auto-proxy hook) loses its registration mark and "
+                 "travels by value to every client from then on" % (unparse(bad, 60), g.loc(bad))) if bad is not None else "")
+
